@@ -185,12 +185,15 @@ def fixed_cases():
                "noise": common.NOISE_TEXTS[3 + len(p) % 3] if len(p) % 2 else None}
 
 
+SPELLING = ["spelling the tokens", "identifier operand", "same spelling"]
+
+
 def judge_spelling(case):
     """a string literal that spells program text (the tokens of two groups, the name of a field) is still one constant - also
     when it reaches a live evaluator that holds the program it spells"""
     from . import c11
 
-    case = dict(case, only=["spelling the tokens", "identifier operand"])
+    case = dict(case, only=SPELLING)
     return c11.judge_neighbours(case)
 
 
@@ -204,4 +207,8 @@ def run(ctx, rec):
         return
     from . import c11
 
+    if ctx.shard == 0:
+        runner.direct_run(ctx, rec, "literal-spelling-neighbours-of-fixed-programs", c11.fixed_neighbours(only=SPELLING), judge_spelling)
+        if rec.violations:
+            return
     runner.hyp_run(ctx, rec, "literal-spelling-program-text-through-recompile", c11.neighbour_cases(), judge_spelling, ctx.n(80, 500))
